@@ -140,7 +140,7 @@ class RandomWalksGenerator:
             if layer_size == 0:
                 break
             if layer_size > width:
-                random_indices = torch.randperm(layer_size)[:width]
+                random_indices = torch.randperm(layer_size)[:width].sort()[0]  # Keep hashes sorted for TorchHashSet.
                 layer_size = width
                 next_states = next_states[random_indices]
                 next_states_hashes = next_states_hashes[random_indices]
